@@ -407,6 +407,7 @@ def run_case(ctx, rd, idx, label, tree, flags, upath, precreate, timeout=CASE_TI
     try:
         outer, jail = make_jail(base, precreate)
         absb = os.fsencode(jail)
+        template = tree.tokens()
         tree = abs_subst(tree, absb)
         img = base / "img.sqfs"
         img.write_bytes(forge(tree))
@@ -431,7 +432,7 @@ def run_case(ctx, rd, idx, label, tree, flags, upath, precreate, timeout=CASE_TI
         log = (base / "st.log").read_text(errors="replace") if (base / "st.log").exists() else ""
         calls = parse_strace(log)
         state = tree_state(R)
-        rec = {"idx": idx, "label": label, "flags": flags, "upath": upath.hex(), "precreate": precreate, "tokens": tree.tokens(),
+        rec = {"idx": idx, "label": label, "flags": flags, "upath": upath.hex(), "precreate": precreate, "tokens": tree.tokens(), "template": template, "jail": os.fsdecode(absb),
                "rc": rc, "stderr": err[-3000:].decode("latin-1"), "calls": calls, "changed": diff_snap(before, after),
                "skips": [m.hex() for m in SKIP_RE.findall(err)], "state": state, "R_exists": os.path.isdir(R)}
         return rec
@@ -445,6 +446,34 @@ def diff_snap(a, b):
         if a.get(k) != b.get(k):
             ch.append({"path": bytes.fromhex(k).decode("latin-1") if not k.startswith("<") else k, "before": a.get(k), "after": b.get(k)})
     return ch
+
+
+def monitor_request(rec):
+    """the model's POSIX semantics (and its confinement verdict) applied to the calls the tool really made after chdir(R)"""
+    seen, scs, res = False, [], []
+    for tok, r in rec["calls"]:
+        if not seen:
+            seen = tok == "chdir:52" and r == "0"
+            continue
+        if tok.startswith(("open?", "other", "truncated", "unparsed")) or "~" in tok:
+            return None, None
+        scs.append(tok + ":-" if tok.startswith("opent:") else tok)
+        res.append(r)
+    if not scs:
+        return None, None
+    comps = [os.fsencode(c) for c in rec["jail"].split("/")[1:]]
+    ents, p = ["/:d"], []
+    for c in comps:
+        p.append(c)
+        ents.append("/" + "/".join(x.hex() for x in p) + ":d")
+    jp = "/" + "/".join(x.hex() for x in comps)
+    op = "/" + "/".join(x.hex() for x in comps[:-1])
+    def e(base, name, kind):
+        return base + "/" + name.hex() + ":" + kind
+    ents += [e(jp, b"decoy_dir", "d"), e(jp + "/" + b"decoy_dir".hex(), b"sub", "d"), e(jp + "/" + b"decoy_dir".hex(), b"inner", "f"),
+             e(jp, b"decoy_file", "f"), e(jp, b"x", "f"), e(jp, b"decoy_link", "l:" + b"decoy_dir".hex()), e(jp, b"loop", "l:" + b"loop".hex()),
+             e(op, b"outer_file", "f"), e(jp, b"R", "d")]
+    return "monitor %s %d %s %s" % (jp + "/52", len(ents), " ".join(ents), " ".join(scs)), res
 
 
 def model_request(rec, op="exec"):
@@ -683,7 +712,7 @@ def build_rd(ctx):
 
 def replay_dict(rec, why):
     return {"why": why, "label": rec["label"], "flags": rec["flags"], "upath": rec["upath"], "precreate": rec["precreate"],
-            "tokens": rec["tokens"], "rc": rec["rc"], "stderr": rec["stderr"][-600:], "calls": rec["calls"][-40:], "changed_outside_R": rec["changed"][:10],
+            "tokens": rec["template"], "rc": rec["rc"], "stderr": rec["stderr"][-600:], "calls": rec["calls"][-40:], "changed_outside_R": rec["changed"][:10],
             "cmd": "rdsquashfs -q -u <upath> -p R <flags> img (image forged by tools/sqfs_forge.py from `tokens`), cwd = jail"}
 
 
@@ -713,7 +742,7 @@ def run(ctx):
     ctx.log("implementation runs done")
     execs = ctx.driver(["c06"], "\n".join(model_request(r, "exec") for r in recs) + "\n", timeout=3000)
     plans = ctx.driver(["c06"], "\n".join(model_request(r, "plan") for r in recs) + "\n", timeout=3000)
-    hist = {"rc": {}, "model_status": {}, "impl_calls": 0, "skips_reported": 0, "escape_attempts_blocked": 0}
+    hist = {"rc": {}, "model_status": {}, "impl_calls": 0, "skips_reported": 0}
     nontrivial, ndis, nviol = set(), 0, 0
     for rec, ml, pl in zip(recs, execs, plans):
         hist["rc"][str(rec["rc"])] = hist["rc"].get(str(rec["rc"]), 0) + 1
@@ -743,6 +772,28 @@ def run(ctx):
             if ndis <= 5:
                 ctx.violation("corr:" + key, "model and rdsquashfs disagree (nothing outside R changed): " + "; ".join(bad)[:900],
                               dict(replay_dict(rec, bad), model=ml[:3000]), found_input=False)
+    # 3. the model's POSIX semantics on the calls the tool really made (every run, not only on disagreement)
+    mreqs = [(i, *monitor_request(r)) for i, r in enumerate(recs)]
+    mreqs = [(i, q, res) for i, q, res in mreqs if q]
+    mouts = ctx.driver(["c06"], "\n".join(q for _, q, _ in mreqs) + "\n", timeout=3000) if mreqs else []
+    nmon = 0
+    for (i, q, res), ml in zip(mreqs, mouts):
+        w = ml.split()
+        mres = [x.split("@")[0] for x in w[1:]]
+        esc_model, esc_real = w[0] == "escaped", bool(recs[i]["changed"])
+        if mres == res and esc_model and not esc_real:
+            # every errno agrees, and by the model's semantics a successful call wrote an object that is not below R, but the
+            # snapshot shows no difference: the value written equals the old one (e.g. chmod to the mode it already had)
+            nmon += 1
+            if nmon <= 3:
+                ctx.violation("escape-by-model:" + vlib.sha(q)[:12], "a system call of the unpack run resolved, by the model's POSIX semantics, to an object outside R "
+                              "and succeeded (the jail snapshot shows no difference because the value written equals the old one): %s" % ml[:300],
+                              dict(replay_dict(recs[i], "model monitor: write outside R"), monitor=ml[:4000]))
+        elif mres != res or esc_model != esc_real:
+            nmon += 1
+            if nmon <= 3:
+                ctx.violation("posix-model:run:" + vlib.sha(q)[:12], "the abstract POSIX model disagrees with the kernel on the calls of an unpack run: kernel %s model %s; "
+                              "changed outside R: kernel %s, model %s" % (res[:12], mres[:12], esc_real, w[0]), {"request": q[:20000], "kernel": res, "model": ml[:4000]}, found_input=False)
     pbad, pstat = posix_probe(ctx, 400 if ctx.quick() else 8000)
     for b in pbad[:5]:
         ctx.violation("posix-model:" + vlib.sha(json.dumps(b["script"]))[:12],
@@ -760,9 +811,10 @@ def run(ctx):
                 "15%% with an unpack sub-path) unpacked by the ASan+UBSan rdsquashfs of the working tree under strace in a jail with decoys; "
                 "non-trivial = distinct (tree, flags, path) where an entry was skipped, the tool failed, or a system call failed" % (ncorpus, nbuiltin, nrand),
         "samples": samples,
-        "disagreements_checked": ndis + nviol + len(pbad),
+        "disagreements_checked": ndis + nviol + len(pbad) + nmon,
         "histogram": hist,
         "posix_model_probe": pstat,
+        "monitor_on_real_calls": {"runs": len(mreqs), "disagreements": nmon},
     })
     return ctx.finish(LEVEL, trusted_extra=[
         "abstract POSIX file system of Sqfs/Model/Unpack.lean (path resolution, symlink following, O_EXCL / O_CREAT|O_TRUNC / AT_SYMLINK_NOFOLLOW rules): "
